@@ -7,7 +7,10 @@ family cannot decide.  Decided necessary conditions (DESIGN.md §2 C12):
             kinds plus the two pool-backed kinds.
   C12.METER the four is_*_meter predicates have the same conjunct set up to their leaf predicate;
             each *_chain is leaf-or-meter of its own kind; primary/fallback pairing and the meter
-            fallback use the four leaf predicates, each in its own `all`.
+            fallback use the four leaf predicates, each in its own `all`; in the pairing loop a meter gets its
+            fallbacks, a device is filed under its single predecessor when the pair predicate holds (a further
+            conjunct `successors(predecessor) <= requested components` may withhold the meter, nothing may grant
+            it) and is its own primary with an empty fallback set on every other path.
   C12.DFS   dfs stops at the first match, marks visited before testing, recurses over all successors.
   C12.EMIT  every sum-emitting loop pushes one metric per term and an operator before every term but
             the first (`-` for every subtracted term); nones_are_zeros is `category != METER` or the
@@ -49,10 +52,10 @@ from ..engine.normalize import inline_helpers
 from ..engine.report import AnalysisError, Run
 from ..engine.resolver import FuncInfo, Program, parent_map, walk_no_nested
 from ..engine.util import method_call, node_calls, node_writes, nodes_with_call, reaching_defs
-from ._c12_util import (EAGER_CONSUMERS, DupFree, Folder, IterationSlice, LoopMutation, alias, bcanon, call_args, deref,
+from ._c12_util import (EAGER_CONSUMERS, MUTATORS, DupFree, Folder, IterationSlice, LoopMutation, alias, bcanon, call_args, deref,
                         edges_establishing, emptiness, facts, literals, name_aliases, normal, path_avoiding_edges, place_aliases,
-                        places_read, pmap, rename, resolve_callable, resizes, simplify_under, single_defs, size_subject, test_edges,
-                        txt, walked_places)
+                        places_read, pmap, rename, resolve_callable, resizes, simplify_under, single_defs, size_subject, splice_closure_helpers,
+                        subset_fact, test_edges, txt, walked_places)
 
 CG = "microgrid.component_graph:_MicrogridComponentGraph"
 GEN = "timeseries.formula_engine._formula_generators"
@@ -253,7 +256,10 @@ class Ctx:
     def prep(self, fn: FuncInfo) -> FuncInfo:
         """Statements that were extracted into simple private helpers are spliced back (analysis only)."""
         if fn.qual not in self._prep:
-            node = inline_helpers(self.prog, fn, exclude=self.keep)
+            # (first the block helpers that define a closure of their own, e.g. a graph search with a named predicate:
+            # the engine's splice leaves those alone)
+            pre = splice_closure_helpers(self.prog, fn, exclude=self.keep)
+            node = inline_helpers(self.prog, fn, node=pre, exclude=self.keep)
             self._prep[fn.qual] = FuncInfo(fn.name, fn.module, node, fn.cls, fn.outer)
         return self._prep[fn.qual]
 
@@ -468,6 +474,17 @@ def check_part(run: Run, cx: Ctx) -> None:
         always = cfg.path(cfg.entry, [cfg.exit], avoid=search, edge_ok=normal) is None
         ok = bool(search) and (always or (bool(e_none) and all(
             m in search or cfg.path(m, [cfg.exit], avoid=search, edge_ok=normal) is None for _t, m, _lab in e_none)))
+        # the search may also be one alternative of a conditional expression inside its statement: then it is the one
+        # taken when no ids are configured
+        parents = parent_map(pv.node)
+        child: ast.AST = calls[0]
+        up = parents.get(child)
+        while ok and up is not None and not isinstance(up, ast.stmt):
+            if isinstance(up, ast.IfExp) and child is not up.test:
+                ok = emptiness(bcanon(cx.value(pv, defs, up.test), child is up.orelse)) == (ids, True)
+            elif isinstance(up, (ast.BoolOp, ast.Lambda, ast.GeneratorExp, ast.ListComp, ast.SetComp, ast.DictComp)):
+                ok = False  # evaluated only sometimes / later
+            child, up = up, parents.get(up)
     run.check(ok, "C12.PART", pv.qual, "no configured ids -> the PV chain is searched",
               "with no component ids configured the PV components are not taken from the PV-chain search "
               "(PV power would be the 0 placeholder although the graph has PV inverters)", node=pv.node, file=pv.file)
@@ -578,8 +595,11 @@ def check_meter(run: Run, cx: Ctx) -> None:
               "lookup (hence formula generation) fails for every meter", node=mf.node, file=mf.file)
     mfc = cx.prep(fg.methods[cx.R["_get_metric_fallback_components"]])
     run.analysed(mfc.qual)
-    run.check(pairing_ok(cx, mfc), "C12.METER", mfc.qual, "meters -> their fallbacks; devices -> their single metering predecessor",
-              "primary/fallback selection does not pair a device with its single predecessor meter", node=mfc.node, file=mfc.file)
+    run.check(pairing_ok(cx, mfc), "C12.METER", mfc.qual,
+              "meters -> their fallbacks; devices -> their single metering predecessor (when it may stand in), else own empty entry",
+              "primary/fallback selection does not pair a device with its single predecessor meter whenever the pairing "
+              "predicate holds (and, where tested, all that meter's successors are requested), or does not record the device "
+              "as its own primary without fallbacks otherwise", node=mfc.node, file=mfc.file)
 
 
 def pair_form(primary: str, fallback: str) -> Any:
@@ -593,8 +613,14 @@ def pairing_ok(cx: Ctx, fn: FuncInfo) -> bool:
     """_get_metric_fallback_components, decided on the CFG of one loop iteration:
     on `category == METER` the result maps the component to `_get_meter_fallback_components(component)` and
     nothing else happens; otherwise the component is added to the entry of *the popped single predecessor*
-    exactly when `len(predecessors) == 1` and `_is_primary_fallback_pair(predecessor, component)` hold, and
-    gets an own empty entry on every other path."""
+    only when `len(predecessors) == 1` and `_is_primary_fallback_pair(predecessor, component)` hold — and
+    whenever they hold, unless a further condition that only withholds the meter fails: the one the F24 repair
+    added, `successors(predecessor) is a subset of the requested components` (any spelling, see `subset_fact`;
+    that it is *there* is C19.COVER's demand, not this rule's) — and gets an own empty entry on every other path,
+    in particular where that subset condition is known to fail.  The predecessor lookup, the pair test and the
+    subset test may live in a helper / closure that returns `the primary or None`: the key the device is filed
+    under is then read given the facts established on the way to the filing statement, and a key that is the
+    predecessor only given the subset condition must be reached only over an edge that established it."""
     cfg = CFG(fn.node, fn.file)
     defs = cx.defs(fn)
     if len(fn.params) != 2:
@@ -628,13 +654,39 @@ def pairing_ok(cx: Ctx, fn: FuncInfo) -> bool:
     # statement (single predecessor, primary/fallback pair): an optional "primary or None" value resolves
     pair_atoms = {("truthy", f"self.{pair_fn}({q}, {x})") for q in pops} if pair_fn is not None else {pair_form(q, x) for q in pops}
     given = {("==", frozenset({"1", f"len({pred})"}))} | pair_atoms
-    n_add = stmts(lambda s: isinstance(s, ast.Expr) and txt(simplify_under(val(s.value), given))
-                  in {f"{res}.setdefault({q}, set()).add({x})" for q in pops})
+    adds = {f"{res}.setdefault({q}, set()).add({x})" for q in pops}
+    # ... and, since the F24 repair, one further condition may restrict WHEN the meter stands in for the device: every
+    # successor of that predecessor is among the requested components (the function's argument), in any spelling
+    meter_succ = {f"GRAPH.successors({q}.component_id)" for q in pops}
+
+    def built_once(e: ast.AST) -> ast.AST:
+        """A local bound once to a fresh collection (`ids = {c.component_id for c in components}`) that nothing in the
+        function changes afterwards, read as that collection."""
+        if not (isinstance(e, ast.Name) and e.id in defs):
+            return e
+        name = e.id
+        for n in ast.walk(fn.node):
+            if isinstance(n, ast.Call) and isinstance(n.func, ast.Attribute) and txt(n.func.value) == name and n.func.attr in MUTATORS:
+                return e
+            if isinstance(n, (ast.AugAssign, ast.Delete)) and any(txt(t) == name or (isinstance(t, ast.Subscript) and txt(t.value) == name)
+                                                                   for t in ([n.target] if isinstance(n, ast.AugAssign) else n.targets)):
+                return e
+            if isinstance(n, ast.Assign) and any(isinstance(t, ast.Subscript) and txt(t.value) == name for t in n.targets):
+                return e
+        return cx.norm(deref(e, defs, containers=True))
+
+    def covered(a: Any) -> bool | None:
+        return subset_fact(a, lambda t: t in meter_succ, lambda t: t == fn.params[1], expand=built_once)
+
+    n_add0 = stmts(lambda s: isinstance(s, ast.Expr) and txt(simplify_under(val(s.value), given)) in adds)
+    n_add = stmts(lambda s: isinstance(s, ast.Expr) and txt(simplify_under(val(s.value), given, lambda a: covered(a) is True)) in adds)
     meter = ("==", frozenset({f"{x}.category", METER}))
     e_m = edges_establishing(cfg, lambda a: a == meter, val, within=body)
     e_nm = edges_establishing(cfg, lambda a: a == ("!=", meter[1]), val, within=body)
     e_pair = edges_establishing(cfg, lambda a: a in pair_atoms, val, within=body)
     e_len = edges_establishing(cfg, lambda a: a == ("==", frozenset({"1", f"len({pred})"})), val, within=body)
+    e_cov = edges_establishing(cfg, lambda a: covered(a) is True, val, within=body)
+    e_ncov = edges_establishing(cfg, lambda a: covered(a) is False, val, within=body)
     t_pair = {e[0] for e in e_pair}
     if not (n_mf and n_own and n_add and e_m and e_nm and e_pair and e_len):
         return False
@@ -664,7 +716,30 @@ def pairing_ok(cx: Ctx, fn: FuncInfo) -> bool:
     if any(e not in e_len and path_avoiding_edges(cfg, entry, [e[0]], e_len, avoid=[h]) for e in e_pair):
         return False
     for _t, m, _lab in e_pair:
-        if not must_pass(m, n_add) or after(m) & n_own:
+        # once the pair is established the device joins its meter — unless the subset condition is then found to fail
+        if m not in n_add and path_avoiding_edges(cfg, [m], [h], e_ncov, avoid=n_add):
+            return False
+        if path_avoiding_edges(cfg, [m], n_own, e_ncov, avoid=[h]):
+            return False
+    # ... and nothing but the subset condition may withhold it: a test that establishes the pair establishes, besides,
+    # only what the pairing itself needs (a single predecessor, which is not None; a non-meter device)
+    len1 = ("==", frozenset({"1", f"len({pred})"}))
+
+    def needed(a: Any) -> bool:
+        return a in pair_atoms or a == len1 or covered(a) is True or a == ("!=", meter[1]) \
+            or a in {("isnot", frozenset({"None", q})) for q in pops} or a in {("truthy", q) for q in pops} \
+            or a in (("truthy", pred), ("nonempty", pred))
+
+    for edge, test, neg in test_edges(cfg, body):
+        if edge in e_pair and not all(needed(a) for a in facts(bcanon(val(test), neg))):
+            return False
+    # the requested-set condition only ever *withholds* the meter: a key that is the predecessor only given that
+    # condition is used only where it was established, and where it is known to fail the device is its own primary
+    # with no fallbacks (never filed under the meter, never under `None`)
+    if n_add - n_add0 and path_avoiding_edges(cfg, entry, n_add - n_add0, e_cov, avoid=[h]):
+        return False
+    for _t, m, _lab in e_ncov:
+        if not must_pass(m, n_own) or after(m) & n_add:
             return False
     return True
 
@@ -1219,8 +1294,23 @@ def check_guards(run: Run, cx: Ctx, fn: FuncInfo, cfg: CFG, defs: dict[str, ast.
     opers = [n.id for n in cfg.nodes if n.ast is not None and node_calls(cfg, n.id, lambda c: is_call_attr(c, "push_oper"))]
     e_empty: list[tuple[int, int, str]] = []
     ok_raise = True
+    # a summed / iterated collection that is *chosen* by a conditional expression (`a if c else b`) is one collection:
+    # a truthiness / size test of it is read whole, not distributed over its two alternatives
+    whole = set(iterated) | {o for os_ in origins.values() for o in os_}
+
+    class Whole(ast.NodeTransformer):
+        def visit_IfExp(self, node: ast.IfExp) -> ast.AST:  # noqa: N802
+            if txt(node) in whole:
+                return ast.copy_location(ast.Name(id=txt(node), ctx=ast.Load()), node)
+            return self.generic_visit(node)
+
+    def as_tested(test: ast.AST) -> ast.AST:
+        import copy
+        v = val(test)
+        return Whole().visit(copy.deepcopy(v)) if any(isinstance(x, ast.IfExp) for x in ast.walk(v)) else v
+
     for edge, test, neg in test_edges(cfg):
-        for a in facts(bcanon(val(test), neg)):
+        for a in facts(bcanon(as_tested(test), neg)):
             em = emptiness(a)
             subj = em[0] if em else size_subject(a)
             if subj is None:
@@ -1862,6 +1952,15 @@ CONTROLS = [
     ("pairing loop stops at the first paired device", f"{GEN}._formula_generator",
      "                        fallbacks.setdefault(predecessor, set()).add(component)\n                        continue\n",
      "                        fallbacks.setdefault(predecessor, set()).add(component)\n                        break\n", "C12.METER"),
+    ("meter stands in exactly when NOT all its successors are requested", f"{GEN}._formula_generator",
+     "                    ) and graph.successors(predecessor.component_id).issubset(components):\n",
+     "                    ) and not graph.successors(predecessor.component_id).issubset(components):\n", "C12.METER"),
+    ("meter withheld unless the requested components are all behind it (subset reversed)", f"{GEN}._formula_generator",
+     "                    ) and graph.successors(predecessor.component_id).issubset(components):\n",
+     "                    ) and components.issubset(graph.successors(predecessor.component_id)):\n", "C12.METER"),
+    ("all successors requested is enough to pair (`or`)", f"{GEN}._formula_generator",
+     "                    ) and graph.successors(predecessor.component_id).issubset(components):\n",
+     "                    ) or graph.successors(predecessor.component_id).issubset(components):\n", "C12.METER"),
     ("fallback ids accumulated across primaries (list hoisted out of the loop, `+=`)", f"{GEN}._pv_power_formula",
      "        for primary_component, fallback_components in fallbacks.items():\n            if len(fallback_components) == 0:\n"
      "                fallback_formulas[primary_component] = None\n                continue\n"
